@@ -1052,4 +1052,169 @@ example : validateAnnotations wDupProps = false ∧ e2eModel idCodec true wDupPr
     e2eMonitor idCodec true wDupProps wDupArgs (e2eModel idCodec true wDupProps wDupArgs) = none := by
   decide
 
+/-! ### the unsupported-version answer: no false alarm, with the model's exact observation -/
+
+theorem dispatched_clean (c : B64) (r : Req) (hf : Framed r) {b : Bool} (hb : verdict c r = .dispatched b) :
+    violations c r = [] := by
+  rw [violations_nil_iff]
+  by_cases hk : r.kind = .sse
+  · exact sse_not_violates hk hb
+  · exact pre_not_violates (dispatch_sound c r hk b hb) hk hf
+
+theorem unsupportedNew_post {r : Req} (h : unsupportedNew r = true) : r.method = .post := by
+  unfold unsupportedNew at h
+  simp only [Bool.and_eq_true, beq_iff_eq] at h
+  exact h.1.1
+
+theorem uvMonitor_accepts_model (c : B64) (r : Req) (ob : HttpObs) (hf : Framed r) (hne : MethodsNonEmpty r) :
+    uvMonitor c r (modelObsV r (verdict c r) ob) = none := by
+  unfold uvMonitor
+  split
+  · rename_i hc
+    exfalso
+    simp only [Bool.and_eq_true, List.isEmpty_iff, Bool.not_eq_true', Bool.and_eq_false_iff, beq_eq_false_iff_ne, ne_eq] at hc
+    obtain ⟨⟨hu, hv⟩, hn⟩ := hc
+    have hpost := unsupportedNew_post hu
+    cases hver : verdict c r with
+    | dispatched b =>
+      rw [hver] at hn
+      simp only [modelObsV, hu, if_true] at hn
+      by_cases hcont : uvAllowed.contains (ob.status, ob.code) = true
+      · rw [if_pos hcont, if_pos hcont] at hn
+        exact hn.elim (fun h => by rw [hcont] at h; cases h) (fun h => h trivial)
+      · rw [if_neg hcont, if_neg hcont] at hn
+        exact hn.elim (fun h => absurd h (by decide)) (fun h => h trivial)
+    | reject st code allow =>
+      have hm := reject_mandated c r hpost hne
+      rw [hver] at hm
+      obtain ⟨p, hp, hvio, _⟩ := hm
+      have hmem := (mem_violations c r p _).mpr ⟨hp, hvio, rfl⟩
+      rw [hv] at hmem
+      cases hmem
+    | served st => exact absurd hver (post_not_served c r hpost st)
+  · rfl
+
+/-- **http, all monitors incl. the unsupported-version clause**, on the model's exact observation `modelObsV`. -/
+theorem http_monitorV_accepts_model (c : B64) (r : Req) (ins : List MsgIn) (ob : HttpObs)
+    (hf : Framed r) (hne : MethodsNonEmpty r) :
+    httpMonitorAllV c r ins (modelObsV r (verdict c r) ob) = none := by
+  unfold httpMonitorAllV
+  rw [uvMonitor_accepts_model c r ob hf hne]
+  simp only [Option.orElse]
+  cases hver : verdict c r with
+  | dispatched b =>
+    by_cases hu : unsupportedNew r = true
+    · have hclean := dispatched_clean c r hf hver
+      have hpost := unsupportedNew_post hu
+      simp only [modelObsV, hu, if_true]
+      have h1 : ∀ o : HttpObs, o.disp = 1 → httpMonitor c r o = none := by
+        intro o hd
+        unfold httpMonitor
+        simp only [hd, beq_self_eq_true, Bool.not_true, Bool.false_and, Bool.false_eq_true, if_false, hpost, if_true, hclean]
+      have h2 : ∀ o : HttpObs, o.handled = 0 → handlerNameMonitor r o = none := by
+        intro o hh
+        unfold handlerNameMonitor
+        split
+        · rfl
+        · simp [hh]
+        · rfl
+      unfold httpMonitorAll
+      rw [h1 _ rfl, h2 _ rfl]
+      rfl
+    · have := http_monitor_accepts_model c r ins ob hf hne
+      rw [hver] at this
+      simp only [modelObsV, hu, Bool.false_eq_true, if_false]
+      exact this
+  | reject st code allow =>
+    have := http_monitor_accepts_model c r ins ob hf hne
+    rw [hver] at this
+    exact this
+  | served st =>
+    have := http_monitor_accepts_model c r ins ob hf hne
+    rw [hver] at this
+    exact this
+
+/-! ### seq: one session over time (induction over operation sequences)
+
+Unlike the other kinds the `seq` records of a case depend on each other: the monitor carries what an observer knows
+(`SeqMon`), the model the client's cache.  The invariant relating the two is `SeqInv` (SeqProps.lean): every name the
+observer has seen the server give the client since the table last changed lies in a cached page received since then, such
+pages are what the server would answer now, and they are the most recent ones. -/
+
+/-- No clause on the model's observation of any step taken from a state satisfying the invariant. -/
+theorem seq_step_no_clause (c : B64) (hc : c.Lawful) {w : World} {m : SeqMon} (h : SeqInv w m) (now : Nat) (op : SeqOp) :
+    (seqMonStep c m op (stepW c w now op).2).2 = none := by
+  cases op with
+  | setTool n p => rfl
+  | delTool n => rfl
+  | ttl v => rfl
+  | adv => rfl
+  | notified => rfl
+  | list k =>
+    simp only [stepW]
+    split
+    · simp only [seqMonStep]; split <;> rfl
+    · split
+      · split
+        · simp only [seqMonStep]; split <;> rfl
+        · simp only [putPage, seqMonStep]; split <;> rfl
+      · simp only [putPage, seqMonStep]; split <;> rfl
+  | look n =>
+    simp only [stepW, seqMonStep]
+    split
+    · rename_i hcnd
+      simp only [Bool.and_eq_true, List.contains_iff_mem] at hcnd
+      obtain ⟨d, hd, hsd⟩ := h.lookup hcnd.2
+      rw [h.server, hsd, hd]
+      simp
+    · rfl
+  | call n a =>
+    simp only [stepW, seqMonStep]
+    rw [h.server, h.proto]
+    rcases callWith_quiet c w (clientLookup w n) n a with hq | ⟨code, hq⟩
+    all_goals
+      cases hs : toolDef w.server n with
+      | none =>
+        simp only [callModel, hq]
+      | some ps =>
+        simp only []
+        cases hp : w.newProto with
+        | false =>
+          have : callModel c w n a = ([], .okSame) := legacy_call_accepted c w hp hs a
+          simp [this]
+        | true =>
+          simp only [if_true]
+          split
+          · rename_i hcnd
+            simp only [Bool.and_eq_true, List.contains_iff_mem] at hcnd
+            obtain ⟨⟨hl, htv⟩, hav⟩ := hcnd
+            obtain ⟨d, hd, hsd⟩ := h.lookup hl
+            rw [hs] at hsd
+            cases hsd
+            have hcall : callModel c w n a = (generateParamHeaders c ps a, .okSame) := by
+              unfold callModel
+              rw [hd]
+              exact callWith_own_def c hc w hp hs a ((toolValidB_iff ps).mp htv).2
+                (argsValidDoc_prim ((argsValidB_iff ps a).mp hav))
+            rw [hcall]
+            simp only [bne_self_eq_false, Bool.false_eq_true, if_false]
+            rw [gen_monitor_accepts_model c hc ps a _ (List.Perm.refl _)]
+          · simp only [callModel, hq]
+
+/-- **seq.**  For every lawful codec, every configuration and EVERY list of operations with arbitrary clocks, the monitor
+run in lockstep on the model's observations raises no clause. -/
+theorem seq_run_no_clause (c : B64) (hc : c.Lawful) (ops : List (Nat × SeqOp)) :
+    ∀ {w : World} {m : SeqMon}, SeqInv w m → (runSeq c w m ops).2.2 = [] := by
+  induction ops with
+  | nil => intro w m _; rfl
+  | cons x rest ih =>
+    intro w m h
+    obtain ⟨now, op⟩ := x
+    simp only [runSeq, seq_step_no_clause c hc h now op, List.nil_append]
+    exact ih (seqInv_step c h now op)
+
+theorem seq_monitor_accepts_model (c : B64) (hc : c.Lawful) (cfg : SeqCfg) (ops : List (Nat × SeqOp)) :
+    (runSeq c (World.init cfg) (SeqMon.init cfg) ops).2.2 = [] :=
+  seq_run_no_clause c hc ops (seqInv_init cfg)
+
 end Preflight
